@@ -24,7 +24,7 @@ MANIFEST = dict(
     category='model_checking', design_ref='DESIGN.md §3 C04, §2.5',
     engine='E1-history',
     technique='explicit-state model checking: BFS closure of the add/remove state graph on the real database; per-state scoped-transcript equality with the reference model and per-edge non-interference of unchanged selections',
-    text='The state graph of C05 (17 add/remove events over base, second version with identical ids, extension, extension of extension, dependent, unrelated lexicon sharing forms and ILIs) is closed (BFS to a fixpoint) on the real SQLite database under an abstraction key (quick: installed lexicons in rowid order + ILI-index flag; thorough: additionally the value sets of the shared lookup tables). In every state, for every Wordnet selection of a menu (each single lexicon with expand default and disabled, base+extension families, both versions together, lang=en/es, default mode) the complete public-API transcript (words, forms, tags, pronunciations, senses, navigation, relations, members, ILIs) must equal the transcript the reference model computes for exactly that scope and may mention only entities of the selection (restricted) or of the entity\'s own extension family (default mode). Along every transition of the graph, every selection whose resolved lexicon set and expand set are unchanged must report an identical transcript - this covers additions and removals of unrelated lexicons and of unselected extensions of selected lexicons.',
+    text='The state graph of C05 (17 add/remove events over base, second version with identical ids, extension, extension of extension, dependent, unrelated lexicon sharing forms and ILIs) is closed (BFS to a fixpoint) on the real SQLite database under an abstraction key (quick: installed lexicons in rowid order + ILI-index flag; thorough: additionally the value sets of the shared lookup tables). In every state, for every Wordnet selection of a menu (each single lexicon with expand default and disabled, base+extension families, both versions together, lang=en/es, default mode) the complete public-API transcript (words, forms, tags, pronunciations, senses, navigation, relations, members, ILIs) must equal the transcript the reference model computes for exactly that scope and may mention only entities of the selection (restricted) or of the entity\'s own extension family (default mode). Along every transition of the graph, every selection whose resolved lexicon set and expand set are unchanged must report an identical transcript - this covers additions and removals of unrelated lexicons and of unselected extensions of selected lexicons. The same is done over the twin universe UT of C05 (two versions of one extension and a fork of it that use the same ids for everything they add, including the forms they add to one base entry) with its own menu of 14 selections: what one sibling declares must not appear under, or vanish from, a selection that holds another.',
     note='Expanded (ILI-borrowed) relations are compared differentially here and against a model in C12. Quotient soundness as for C05.',
 )
 
@@ -44,7 +44,17 @@ MENU = [
     ('lang=en', dict(lang='en', expand='')), ('lang=es', dict(lang='es', expand='')),
     ('default', dict(expand='')), ('default+dflt', dict()),
 ]
-LANG = {'a:1': 'en', 'a:2': 'en', 'x:1': 'en', 'y:1': 'en', 'b:1': 'es', 'c:1': 'en'}
+MENU_TWIN = [
+    ('a:1', dict(lexicon='a:1', expand='')), ('a:2', dict(lexicon='a:2', expand='')),
+    ('x:1', dict(lexicon='x:1', expand='')), ('x:2', dict(lexicon='x:2', expand='')),
+    ('z:1', dict(lexicon='z:1', expand='')),
+    ('a:1 x:1', dict(lexicon='a:1 x:1', expand='')), ('a:1 x:2', dict(lexicon='a:1 x:2', expand='')),
+    ('a:1 z:1', dict(lexicon='a:1 z:1', expand='')), ('a:1 x:2+dflt', dict(lexicon='a:1 x:2')),
+    ('a:1 x:1 x:2', dict(lexicon='a:1 x:1 x:2', expand='')), ('a:1 x:2 z:1', dict(lexicon='a:1 x:2 z:1', expand='')),
+    ('a:1 a:2 x:1', dict(lexicon='a:1 a:2 x:1', expand='')),
+    ('default', dict(expand='')), ('default+dflt', dict()),
+]
+LANG = {'x:2': 'en', 'z:1': 'en', 'a:1': 'en', 'a:2': 'en', 'x:1': 'en', 'y:1': 'en', 'b:1': 'es', 'c:1': 'en'}
 ORDER = c05.ORDER
 _ENT = re.compile(r'^([^|]+:[^|]+)\|')
 
@@ -99,7 +109,7 @@ class Sys04(c05.Sys05):
     def store(self, m):
         st = Store()
         for s in m['inst']:
-            st.add_resource(self.res[c05.NAME[s]])
+            st.add_resource(self.res[self.U['name'][s]])
         if m['ili']:
             st.add_ili([dict(ili=a, status=b, definition=c) for a, b, c in universe.ILI_ROWS])
         return st
@@ -109,6 +119,9 @@ class Sys04(c05.Sys05):
         it re-uses the freed rowid - and check the state reached (membership, scoped transcripts)"""
         if ev[0] != 'remove' or self.annot:
             return []
+        if self.uni_id == 'twin':
+            return [['add', a] for a in ('T2', 'Z1', 'A2') if universe.SPEC_TWIN[a] not in m2['inst']
+                    and (a == 'A2' or 'a:1' in m2['inst'])][:1]
         return [['add', a] for a in ('B1', 'A2', 'C1') if c05.universe.SPEC[a] not in m2['inst']][:1]
 
     def check_state(self, m, pre, hist):
@@ -119,7 +132,7 @@ class Sys04(c05.Sys05):
         st = self.store(m)
         idx = st.index()
         smap = None
-        for name, kw in MENU:
+        for name, kw in (MENU_TWIN if self.uni_id == 'twin' else MENU):
             S = resolve(kw, inst)
             default_mode = 'lexicon' not in kw and 'lang' not in kw
             with warnings.catch_warnings():
@@ -136,7 +149,7 @@ class Sys04(c05.Sys05):
                 V.append((f'select:lexicons:{name}', f'after {hist}: Wordnet({kw}).lexicons() = {got_S} expected {S}'))
                 continue
             smap = smap or observe.spec_map()
-            T = observe.api_transcript(w, self.reltypes, smap, forms=universe.FORMS)
+            T = observe.api_transcript(w, self.reltypes, smap, forms=self.U['forms'])
             exp_ids = sorted(T['expanded'])
             # (1a) membership
             if default_mode:
@@ -157,7 +170,7 @@ class Sys04(c05.Sys05):
             # (1b) equality with the scoped reference transcript (where no ILI expansion is active)
             if not exp_ids:
                 exp, unordered = idx.transcript(S, default_mode=default_mode, reltypes=self.reltypes,
-                                                forms=universe.FORMS)
+                                                forms=self.U['forms'])
                 g, x = normalize_unordered(T, unordered), normalize_unordered(exp, unordered)
                 if self.annot:
                     sel_x = st.family('a:1') if default_mode else S
@@ -215,18 +228,19 @@ def edge_check(stats, annot):
 
 def run(tier, seed, jobs=None):
     t0 = time.time()
-    plans = ([(False, 'coarse', None, None), (True, 'coarse', None, None)] if tier == 'quick' else
-             [(False, 'medium', None, 400000), (True, 'medium', None, 400000)])
+    plans = ([(False, 'coarse', None, None), (True, 'coarse', None, None), ('twin', 'coarse', None, None)]
+             if tier == 'quick' else
+             [(False, 'medium', None, 400000), (True, 'medium', None, 400000), ('twin', 'medium', None, 400000)])
     runs, allV, vcount = [], [], {}
     compared = 0
     for annot, mode, depth, cap in plans:
         st, V, vc = e1.explore(_sys(annot), mode, max_depth=depth, cap=cap, jobs=jobs)
-        EV, n = edge_check(st, annot)
+        EV, n = edge_check(st, annot is True)
         compared += n
         nsel = sum(len(v) for v in st['sdata'].values())
         st.pop('sdata')
         st.pop('edges')
-        st.update({'universe': 'U+' if annot else 'U-', 'key': mode, 'selections_observed': nsel,
+        st.update({'universe': c05.ULABEL[annot][:2], 'key': mode, 'selections_observed': nsel,
                    'edge_comparisons': n})
         runs.append(st)
         allV += V + EV
@@ -240,7 +254,7 @@ def run(tier, seed, jobs=None):
         'states': sum(r['states'] for r in runs), 'transitions': sum(r['transitions'] for r in runs),
         'traces_validated_against_impl': sum(r['transitions'] for r in runs),
         'selection_transcripts': sum(r['selections_observed'] for r in runs),
-        'edge_comparisons': compared, 'menu': [n for n, _ in MENU], 'runs': runs,
+        'edge_comparisons': compared, 'menu': [n for n, _ in MENU], 'menu_twin_universe': [n for n, _ in MENU_TWIN], 'runs': runs,
         'samples': [[['add', 'A1'], ['add', 'X1']], [['add', 'A1'], ['add', 'A2'], ['add', 'C1'], ['remove', 'c:1']]],
         'exhaustive': all(r['fixpoint'] for r in runs),
         '_vcount': vcount,
@@ -255,8 +269,10 @@ def replay(path):
     data = json.load(open(path))
     hist = data['case']['history']
     found = False
-    for annot in (False, True):
+    for annot in (False, True, 'twin'):
         s = _sys(annot)
+        if any(ev not in s.events(None) for ev in hist):
+            continue
         env.fresh_db()
         w = env.new_dir('rp')
         m = s.initial_model()
@@ -270,7 +286,7 @@ def replay(path):
             V, data_s = s.check_state(m, None, hist[:i + 1])
             env.close_pool()
             stats = {'sdata': {'p': prev, 'q': data_s}, 'edges': [('p', ev, 'q', hist[:i + 1])]}
-            EV, _ = edge_check(stats, annot) if prev else ([], 0)
+            EV, _ = edge_check(stats, annot is True) if prev else ([], 0)
             for v in V + [(x[0], x[1]) for x in EV]:
                 print(f'REPRODUCED property={PROP} key={v[0]} :: {v[1][:300]}')
                 found = found or v[0] == data['key']
